@@ -26,7 +26,11 @@ META = {
         'string reallocation, in-place MID$/LSET, forced collections and ERASE of non-last arrays; after every step '
         'all live variables/elements are dumped byte by byte through PEEK(VARPTR(x)+k) and compared with the planted '
         'encodings, with MKI$/MKS$/MKD$ of the variable, with VARPTR$ and with a dictionary model; address ranges '
-        'are checked for disjointness and containment in the variable area.'),
+        'are checked for disjointness and containment in the variable area. Frame condition of expression evaluation: '
+        'every arithmetic, logical and relational operator, unary operator and conversion function, and the string '
+        'operators/functions, are evaluated with live scalars and array elements of every type as left, right or only '
+        'operand (directed: the full operator x operand-pair table; random: over the history\'s own variables); '
+        'afterwards each operand must still have its value and its bytes at VARPTR, whatever the result or error.'),
     'level_note': (
         'Trusted: the harness, Session.evaluate for the PEEK/VARPTR expressions, vf.models.rnum encodings. Strings whose '
         'data lie in the program text (literals of stored lines) are checked for content only. Overlap of string DATA '
@@ -39,7 +43,7 @@ META = {
     'design_ref': 'DESIGN.md section 4 C11',
     'assumptions': ['DS:358h/35Ah/35Ch hold start of variables / start of arrays / end of arrays (GW-BASIC memory map)'],
     'require_counters': {'any': ['erase_nonlast_seen', 'two_arrays_alive_dumps', 'gc_seen', 'swap_seen',
-                                 'string_realloc_seen', 'element_bytes_checked']},
+                                 'string_realloc_seen', 'element_bytes_checked', 'operand_frame_checks']},
     'timeout': {'quick': 900, 'thorough': 10800},
 }
 
@@ -47,6 +51,19 @@ SIZE = {'%': 2, '!': 4, '#': 8, '$': 3}
 SIGILS = '%!#$'
 NAME_ALPHA = 'QXZJKWVY'
 NAME_TAIL = 'QXZJKWVY0123456789.'
+
+
+NUM_BINOPS = [('+', 'plus'), ('-', 'minus'), ('*', 'times'), ('/', 'divide'), ('\\', 'intdiv'), (' MOD ', 'mod'),
+              ('^', 'power'), (' AND ', 'and'), (' OR ', 'or'), (' XOR ', 'xor'), (' EQV ', 'eqv'), (' IMP ', 'imp'),
+              ('=', 'eq'), ('<>', 'ne'), ('<', 'lt'), ('>', 'gt'), ('<=', 'le'), ('>=', 'ge')]
+NUM_UNARY = [('-%s', 'negate'), ('NOT %s', 'not'), ('ABS(%s)', 'abs'), ('SGN(%s)', 'sgn'), ('INT(%s)', 'int'),
+             ('FIX(%s)', 'fix'), ('CINT(%s)', 'cint'), ('CSNG(%s)', 'csng'), ('CDBL(%s)', 'cdbl'), ('SQR(%s)', 'sqr'),
+             ('LEN(STR$(%s))', 'str'), ('LEN(MKD$(%s))', 'mkd'), ('LEN(HEX$(%s))', 'hex')]
+STR_BINOPS = [('+', 'concat'), ('=', 'eq'), ('<>', 'ne'), ('<', 'lt'), ('>', 'gt'), ('<=', 'le'), ('>=', 'ge')]
+STR_UNARY = [('LEFT$(%s,2)', 'left'), ('RIGHT$(%s,2)', 'right'), ('MID$(%s,2,3)', 'mid'), ('%s+""', 'concat-empty'),
+             ('CHR$(65)+%s', 'concat-right'), ('SPACE$(LEN(%s))', 'len'), ('STRING$(2,%s+"x")', 'string'),
+             ('STR$(ASC(%s+"a"))', 'asc'), ('STR$(VAL(%s))', 'val'), ('STR$(INSTR(%s,"a"))', 'instr'),
+             ('STR$(CVI(%s+"ab"))', 'cvi')]
 
 
 def plan(tier, seed):
@@ -355,6 +372,54 @@ class History(object):
                 self.res.count('erase_nonlast_seen')
             self.res.count('erase_seen')
 
+    # -- frame condition of expression evaluation ------------------------------------------
+    def evaluate(self, opname, text, operands, string_result=False):
+        """
+        Evaluate an expression over live variables / elements (result into a sink variable that is not
+        part of the model; ANY BASIC error is acceptable) and check that every operand it read still has
+        its value and its bytes at VARPTR.  operands = [(side, source text)].
+        """
+        if self.failed:
+            return
+        stmt = (b'E1%=LEN(' + text + b')') if string_result else (b'E2#=' + text)
+        self.steps.append(stmt)
+        try:
+            out = self.box.ex(stmt)
+            code = self.h.err_of(out)[0]
+            self.res.count('expression_evaluations')
+            if code:
+                self.res.count('expression_evaluations_with_error')
+            for side, src in operands:
+                sigil = src.split('(')[0][-1]
+                val = self.get_obj(src)
+                want_bytes = val if sigil == '$' else val[1]
+                got_val = self.box.ev(src.encode())
+                vp = self.box.ev(b'VARPTR(' + src.encode() + b')') & 0xffff
+                raw = bytes(self.box.ev(b'PEEK(%d)' % ((vp + k) & 0xffff)) for k in range(SIZE[sigil]))
+                self.res.count('operand_frame_checks')
+                tname = {'%': 'integer', '!': 'single', '#': 'double', '$': 'string'}[sigil]
+                kind = 'array-element' if '(' in src else 'scalar'
+                key = 'expression-evaluation-changed-operand:%s:%s-operand:%s-%s' % (opname, side, tname, kind)
+                if sigil == '$':
+                    data = b''
+                    if raw[0]:
+                        addr = raw[1] | (raw[2] << 8)
+                        data = bytes(self.box.ev(b'PEEK(%d)' % ((addr + k) & 0xffff)) for k in range(raw[0]))
+                    if got_val != val or data != val:
+                        self.res.violation(key, 'after %r (error %d): %s reads %r, PEEK gives %r, was %r' % (
+                            stmt, code, src, got_val[:40], data[:40], val[:40]), self.case())
+                        self.failed = True
+                elif raw != want_bytes or got_val != val[0]:
+                    self.res.violation(key, 'after %r (error %d): %s reads %r, bytes at VARPTR %s, was %r / %s' % (
+                        stmt, code, src, got_val, raw.hex(), val[0], want_bytes.hex()), self.case())
+                    self.failed = True
+        except self.h.Internal as e:
+            self.res.violation(e.key, '%s while executing %r' % (e, stmt), self.case())
+            self.failed = True
+        except TypeError:
+            self.res.violation('dump:expression-raised-basic-error', 'reading an operand back failed after %r' % stmt, self.case())
+            self.failed = True
+
     # -- per-step verification -----------------------------------------------------------
     def verify(self, sno):
         if self.failed:
@@ -496,10 +561,34 @@ def random_step(hist, rng):
                 hist.res.count('inplace_modify_seen')
         else:
             return None
-    else:
+    elif r < 0.95:
         # forced collection
         hist.ex(b'PRINT FRE("");')
         hist.res.count('forced_collection_steps')
+    else:
+        # evaluate expressions over live variables: none of the operands may change
+        objs = [o for o in m.objects() if o[0] != 'ZZ$']
+        nums = [o[0] for o in objs if o[1] != '$']
+        strs = [o[0] for o in objs if o[1] == '$']
+        for _ in range(4):
+            if nums and (rng.random() < 0.7 or not strs):
+                if rng.random() < 0.75:
+                    a, b = rng.choice(nums), rng.choice(nums)
+                    op, name = rng.choice(NUM_BINOPS)
+                    hist.evaluate(name, (a + op + b).encode(), [('left', a), ('right', b)])
+                else:
+                    a = rng.choice(nums)
+                    op, name = rng.choice(NUM_UNARY)
+                    hist.evaluate(name, (op % a).encode(), [('only', a)])
+            elif strs:
+                if rng.random() < 0.6:
+                    a, b = rng.choice(strs), rng.choice(strs)
+                    op, name = rng.choice(STR_BINOPS)
+                    hist.evaluate('string-' + name, (a + op + b).encode(), [('left', a), ('right', b)], string_result=(op == '+'))
+                else:
+                    a = rng.choice(strs)
+                    op, name = rng.choice(STR_UNARY)
+                    hist.evaluate('string-' + name, (op % a).encode(), [('only', a)], string_result=True)
     return True
 
 
@@ -608,6 +697,50 @@ def run_directed(spec, res, harness, minv):
         hist.verify(sno + 4)
         hist.erase('QX%')
         hist.verify(sno + 5)
+        hist.finish()
+    finally:
+        hist.close()
+    # 2b. every operator x operand type (integer/single/double/string, scalar and array element) on either side:
+    #     evaluating an expression never changes the variables it reads
+    from fractions import Fraction
+    E = lambda sg, fr: (float(fr) if sg != '%' else int(fr), rnum.encode_exact(Fraction(fr), SIZE[sg]))
+    hist = History(res, None, harness, minv, 'directed/expression-frame')
+    try:
+        hist.assign_scalar('QI%', E('%', 7), 'basic')
+        hist.assign_scalar('QS!', E('!', Fraction(5, 2)), 'basic')
+        hist.assign_scalar('QD#', E('#', Fraction(13, 4)), 'basic')
+        hist.assign_scalar('QT$', b'abc', 'basic')
+        hist.assign_scalar('QU$', b'ab\xffz', 'api')
+        hist.dim('KI%', [2])
+        hist.dim('KS!', [1, 1])
+        hist.dim('KD#', [2])
+        hist.dim('KT$', [1])
+        hist.assign_element('KI%', (1,), E('%', -3))
+        hist.assign_element('KS!', (1, 0), E('!', Fraction(3, 2)))
+        hist.assign_element('KD#', (0,), E('#', Fraction(3, 4)))
+        hist.assign_element('KD#', (2,), E('#', Fraction(-41, 8)))
+        hist.assign_element('KT$', (1,), b'element')
+        hist.verify(1)
+        nums = ['QI%', 'QS!', 'QD#', 'KI%(1)', 'KS!(1,0)', 'KD#(0)', 'KD#(2)']
+        strs = ['QT$', 'QU$', 'KT$(1)', 'KT$(0)']
+        for op, name in NUM_BINOPS:
+            for a in nums:
+                for b in nums:
+                    hist.evaluate(name, (a + op + b).encode(), [('left', a), ('right', b)])
+                hist.evaluate(name + '-constant', (a + op + '2').encode(), [('left', a)])
+                hist.evaluate(name + '-constant', ('2' + op + a).encode(), [('right', a)])
+        for op, name in NUM_UNARY:
+            for a in nums:
+                hist.evaluate(name, (op % a).encode(), [('only', a)])
+        hist.verify(2)
+        for op, name in STR_BINOPS:
+            for a in strs:
+                for b in strs:
+                    hist.evaluate('string-' + name, (a + op + b).encode(), [('left', a), ('right', b)], string_result=(op == '+'))
+        for op, name in STR_UNARY:
+            for a in strs:
+                hist.evaluate('string-' + name, (op % a).encode(), [('only', a)], string_result=True)
+        hist.verify(3)
         hist.finish()
     finally:
         hist.close()
